@@ -346,13 +346,16 @@ func (h *c12Hist) remoteAddr(ip string) string {
 }
 
 // doLogin sends one POST /control/login through the real handler.
-func (h *c12Hist) doLogin(raddr, name, pw string, hdrs []c12Hdr) (status int, cookie string, hasCookie bool, retry string, pan any) {
+func (h *c12Hist) doLogin(raddr, name, pw string, hdrs []c12Hdr, carry *string) (status int, cookie string, hasCookie bool, retry string, pan any) {
 	body, _ := json.Marshal(map[string]string{"name": name, "password": pw})
 	r := httptest.NewRequest(http.MethodPost, "/control/login", bytes.NewReader(body))
 	r.RemoteAddr = raddr
 	r.Header.Set("Content-Type", "application/json")
 	for _, x := range hdrs {
 		r.Header.Set(x.name, x.val)
+	}
+	if carry != nil {
+		r.Header.Set("Cookie", sessionCookieName+"="+*carry)
 	}
 	w := httptest.NewRecorder()
 	func() {
@@ -459,6 +462,51 @@ func (h *c12Hist) login(ai int, kind string) {
 	raddr := h.remoteAddr(a.ip)
 	detail := kind + " user=" + name
 	canon := fmt.Sprintf("L%d:%s", ai, kind)
+	// A login request may carry a session cookie (a browser or a script with
+	// a cookie jar sends it along).  A login always creates a new session and
+	// never changes the state of a presented token.
+	var carry *string
+	carried := ""
+	if h.cfg.Family == "" && h.rng.Intn(100) < 35 {
+		tnow := h.now()
+		var cands []int
+		want := []string{"live-own", "expired-own", "expired-own", "other-user", "logged-out", "junk"}[h.rng.Intn(6)]
+		for i, k := range h.toks {
+			st, _ := h.tokState(k, tnow)
+			var cat string
+			switch {
+			case st == "reject:logged-out":
+				cat = "logged-out"
+			case k.user != name:
+				cat = "other-user"
+			case st == "reject:expired":
+				cat = "expired-own"
+			case st == "accept":
+				cat = "live-own"
+			}
+			if cat == want {
+				cands = append(cands, i)
+			}
+		}
+		switch {
+		case len(cands) > 0:
+			ci := cands[h.rng.Intn(len(cands))]
+			carry, carried = &h.toks[ci].val, fmt.Sprintf("%s tok#%d", want, ci)
+			canon += fmt.Sprintf(":cookie=%s:tok%d", want, ci)
+			h.rep.Event("logins_carrying_a_session_cookie:" + want)
+			if right {
+				h.rep.Event("right_password_logins_carrying_a_session_cookie:" + want)
+			}
+		case want == "junk" || len(h.toks) == 0:
+			v, gk := h.garble(c12GarbleAll)
+			carry, carried = &v, "junk "+gk
+			canon += ":cookie=junk"
+			h.rep.Event("logins_carrying_a_session_cookie:junk")
+		}
+		if carried != "" {
+			detail += " Cookie: agh_session=" + carried
+		}
+	}
 	claims := 0
 	for _, x := range hdrs {
 		detail += fmt.Sprintf(" %s=%q(%s)", x.name, x.val, x.class)
@@ -540,7 +588,7 @@ func (h *c12Hist) login(ai int, kind string) {
 		}
 		return fmt.Sprintf(":while-%d+-other-addresses-tracked", p)
 	}
-	status, cookie, hasCookie, retry, pan := h.doLogin(raddr, name, pw, hdrs)
+	status, cookie, hasCookie, retry, pan := h.doLogin(raddr, name, pw, hdrs, carry)
 	// claimKey qualifies violation keys by what the attempts of the run and
 	// this attempt claimed about their address.
 	claimKey := ""
@@ -720,9 +768,21 @@ func (h *c12Hist) login(ai int, kind string) {
 			h.violate("login:no-session-cookie-on-success", "200 without a session cookie", nil)
 			return
 		}
-		for _, k := range h.toks {
+		for ki, k := range h.toks {
 			if k.val == cookie {
-				h.violate("login:session-token-reused", "a new login returned an already issued token", nil)
+				sfx := ""
+				if carried != "" {
+					sfx = ":request-carried-" + strings.Fields(carried)[0] + "-token"
+				}
+				was, _ := h.tokState(k, t)
+				ran, code, _, _ := h.doReq(raddr, "/control/status", []string{k.val}, nil, false)
+				if ran && strings.HasPrefix(was, "reject:") {
+					sfx += ":dead-token-authenticates-again"
+				}
+				h.violate("session:login-returned-an-already-issued-token"+sfx,
+					fmt.Sprintf("a successful login returned the value of tok#%d, issued before, instead of a new token", ki),
+					map[string]any{"token": ki, "state_of_that_token_before_the_login": was,
+						"request_with_that_token_after_the_login": fmt.Sprintf("handler_ran=%v status=%d", ran, code)})
 				return
 			}
 		}
@@ -1679,26 +1739,28 @@ func TestVerifC12(t *testing.T) {
 
 	// The run is conclusive only if the interesting events were observed.
 	need := map[string]int{
-		"block_enforced_checks":                                     verifkit.Pick(100, 2000),
-		"block_enforced_on_right_password":                          verifkit.Pick(20, 400),
-		"certain_runs_reaching_limit":                               verifkit.Pick(100, 2000),
-		"success_clearing_a_count":                                  verifkit.Pick(50, 1000),
-		"session_must_accept_checks":                                verifkit.Pick(200, 4000),
-		"session_must_accept_checks_after_restart":                  verifkit.Pick(20, 400),
-		"session_reject_checks_after_expiry":                        verifkit.Pick(50, 1000),
-		"session_reject_checks_after_logout":                        verifkit.Pick(50, 1000),
-		"session_reject_checks_after_logout_and_restart":            verifkit.Pick(5, 100),
-		"unknown_token_checks":                                      verifkit.Pick(100, 2000),
-		"restarts":                                                  verifkit.Pick(100, 2000),
-		"session_reject_checks_after_logout_during_storage_fault":   verifkit.Pick(50, 1000),
-		"block_enforced_after_right_basic_credentials_inside_block": verifkit.Pick(30, 600),
-		"logouts_with_several_session_cookies":                      verifkit.Pick(20, 400),
-		"session_reject_checks_after_logout_with_several_cookies":   verifkit.Pick(10, 200),
-		"logout_requests_with_several_session_cookies":              verifkit.Pick(50, 1000),
-		"block_enforced_checks_on_new_address_with_512+_tracked":    verifkit.Pick(10, 50),
-		"logins_claiming_trusted_address_from_untrusted_peer":       verifkit.Pick(300, 6000),
-		"certain_runs_with_claimed_trusted_address_reaching_limit":  verifkit.Pick(50, 1000),
-		"block_enforced_on_attempt_claiming_trusted_address":        verifkit.Pick(50, 1000),
+		"block_enforced_checks":                                       verifkit.Pick(100, 2000),
+		"block_enforced_on_right_password":                            verifkit.Pick(20, 400),
+		"certain_runs_reaching_limit":                                 verifkit.Pick(100, 2000),
+		"success_clearing_a_count":                                    verifkit.Pick(50, 1000),
+		"session_must_accept_checks":                                  verifkit.Pick(200, 4000),
+		"session_must_accept_checks_after_restart":                    verifkit.Pick(20, 400),
+		"session_reject_checks_after_expiry":                          verifkit.Pick(50, 1000),
+		"session_reject_checks_after_logout":                          verifkit.Pick(50, 1000),
+		"session_reject_checks_after_logout_and_restart":              verifkit.Pick(5, 100),
+		"unknown_token_checks":                                        verifkit.Pick(100, 2000),
+		"restarts":                                                    verifkit.Pick(100, 2000),
+		"session_reject_checks_after_logout_during_storage_fault":     verifkit.Pick(50, 1000),
+		"block_enforced_after_right_basic_credentials_inside_block":   verifkit.Pick(30, 600),
+		"logouts_with_several_session_cookies":                        verifkit.Pick(20, 400),
+		"session_reject_checks_after_logout_with_several_cookies":     verifkit.Pick(10, 200),
+		"logout_requests_with_several_session_cookies":                verifkit.Pick(50, 1000),
+		"right_password_logins_carrying_a_session_cookie:expired-own": verifkit.Pick(30, 600),
+		"right_password_logins_carrying_a_session_cookie:live-own":    verifkit.Pick(20, 400),
+		"block_enforced_checks_on_new_address_with_512+_tracked":      verifkit.Pick(10, 50),
+		"logins_claiming_trusted_address_from_untrusted_peer":         verifkit.Pick(300, 6000),
+		"certain_runs_with_claimed_trusted_address_reaching_limit":    verifkit.Pick(50, 1000),
+		"block_enforced_on_attempt_claiming_trusted_address":          verifkit.Pick(50, 1000),
 	}
 	if !rep.Violated() {
 		var low []string
